@@ -147,7 +147,7 @@ for pid, (cat, ref, text, tech) in sorted(CLAIMED.items()):
                    "evidence_file": "evidence/%s.json" % pid,
                    "replay_cmd_template": "./check %s --replay {path}" % pid,
                    "engine": "tla-codec",
-                   "level_claimed": {"category": cat, "text": text, "design_ref": "DESIGN.md section " + ref},
+                   "level_claimed": {"category": cat, "text": text, "design_ref": "DESIGN.md section " + ref + " and 14.3"},
                    "level_note": TRUST, "technique": tech})
 m = {"version": 1,
      "setup_cmd": "./tools/setup.sh",
@@ -158,7 +158,7 @@ m = {"version": 1,
                   "kind_free_text": "explicit TLA+ specification (type algebra, reference encoders, codec API state machine) checked with TLC; TLC-generated behaviours replayed on the implementation; recorded traces validated by TLC"}],
      "checks": checks,
      "notes": "checks are registered as they become quiet on the unchanged tree; known genuine defects are listed in known_findings.json",
-     "not_applicable": [{"property_id": p["id"], "reason": "check not built yet (construction in progress, see DESIGN.md section 10)"}
+     "not_applicable": [{"property_id": p["id"], "reason": "not claimed: see DESIGN.md section 14.6"}
                         for p in props if p["id"] not in CLAIMED]}
 json.dump(m, open(os.path.join(V, "MANIFEST.json"), "w"), indent=1)
 print("claimed:", sorted(CLAIMED))
